@@ -4,7 +4,7 @@
 From Coq Require Import List NArith Bool Arith Lia.
 From Coq.Strings Require Import Byte.
 Import ListNotations.
-From OV Require Import Base.Bytes Base.Cases Base.Utf8 Model.Edi Proofs.Edi.
+From OV Require Import Base.Bytes Base.Cases Base.Utf8 Gen.EdiConsts Model.Edi Proofs.Edi.
 
 (* ---- side conditions ---------------------------------------------------------------------------- *)
 (* "pairwise non-overlapping": the delimiters in use and the release character are non-empty
@@ -688,6 +688,8 @@ Proof.
     destruct (p ++ seg ++ flat_map (fun p0 => p0 ++ seg) ps) as [|b0 t0] eqn:Ed.
     { apply (f_equal (@length byte)) in Ed. rewrite !app_length in Ed. simpl in Ed. lia. }
     rewrite <- Ed. rewrite (index_sealed Ps Ps_sub seg p _ eq_refl Hp). cbn [bind].
+    (* the flags extracted from edi/reader.go: the delimiter stays in the token *)
+    change edi_scanner_drop_delim with false. cbn iota.
     rewrite slice_ok by (rewrite ?app_length; lia). cbn [bind].
     rewrite slice_from_ok by (rewrite !app_length; lia). cbn [bind skipn]. rewrite Nat.sub_0_r.
     replace (length p + length seg) with (length (p ++ seg)) by apply app_length.
